@@ -701,8 +701,15 @@ func resolveDisableMap(r Exp, v map[string]Exp, disable []Exp) ([]Exp, error) {
 	}
 	allFalse := true
 	allTrue := true
-	for _, e := range v {
-		switch e := e.(type) {
+	// Check the entries in sorted key order, so that the entry which is
+	// reported if there is an error is repeatable.
+	keys := make([]string, 0, len(v))
+	for k := range v {
+		keys = append(keys, k)
+	}
+	sort.Strings(keys)
+	for _, k := range keys {
+		switch e := v[k].(type) {
 		case *NullExp:
 			return resolveDisableExp(e, disable)
 		case *RefExp:
